@@ -183,7 +183,7 @@ func genC07(r *hx.R, tier string, _ string) (*hx.Suite, error) {
 	// long parts: the grammar has no length limit; an offending character second, in the middle, second to last
 	lens := []int{13, 32, 63, 64, 65, 128, 129, 255, 256, 257, 1024}
 	if tier == "thorough" {
-		lens = append(lens, 4097, 65535, 65536, 70001)
+		lens = append(lens, 2048, 4097)
 	}
 	for _, n := range lens {
 		body := strings.Repeat("abcdefghijklmnopqrstuvwxyz0123456789_-.", n/39+1)
